@@ -27,7 +27,7 @@ from typing import Any
 from . import core, features
 from .core import Check, run_tlc, tla
 
-LEVEL = "exploration"
+LEVEL = "model_checking"
 
 PACK = 16  # operations per generated package
 OBS_ENV = {"VERIF_OBS_EXTRA": "harness.obs_wire,harness.obs_c05"}
